@@ -60,7 +60,7 @@ func (a *Affiliation) UnmarshalXMLAttr(attr xml.Attr) error {
 }
 
 // MarshalXMLAttr satisfies xml.MarshalerAttr.
-func (a *Affiliation) MarshalXMLAttr(name xml.Name) (xml.Attr, error) {
+func (a Affiliation) MarshalXMLAttr(name xml.Name) (xml.Attr, error) {
 	return xml.Attr{Name: name, Value: a.String()}, nil
 }
 
@@ -97,10 +97,7 @@ func (r *Role) UnmarshalXMLAttr(attr xml.Attr) error {
 }
 
 // MarshalXMLAttr satisfies xml.MarshalerAttr.
-func (r *Role) MarshalXMLAttr(name xml.Name) (xml.Attr, error) {
-	if r == nil {
-		return xml.Attr{}, nil
-	}
+func (r Role) MarshalXMLAttr(name xml.Name) (xml.Attr, error) {
 	return xml.Attr{Name: name, Value: r.String()}, nil
 }
 
